@@ -149,6 +149,24 @@ class Grammar:
                     for k, et in t[1]:
                         yield (et, ("key", x, k))
                         yield (et, ("dattr", x, k))
+        # ---- odd selectors on packages (C18): negative, slice, out of range, absent key
+        if "oddproj" in P:
+            for t, x in self.gen(ctx, m):
+                if isinstance(t, tuple) and t[0] in ("Tup", "Lst"):
+                    yield (t[1][-1], ("idxv", x, "-1"))
+                    yield ((t[0], t[1][:1]), ("idxv", x, "0:1"))
+                    yield (t[1][0], ("idxv", x, str(len(t[1]))))
+                    yield (t[1][0], ("idxv", x, str(len(t[1]) + 1)))
+                elif isinstance(t, tuple) and t[0] == "Dic":
+                    yield (t[1][0][1], ("idxv", x, "'zz'"))
+                    yield (t[1][0][1], ("dattr", x, "zz"))
+            if m >= 2:
+                for n1 in range(1, m):
+                    for t, x in self.gen(ctx, n1):
+                        if isinstance(t, tuple) and t[0] in ("Tup", "Lst") and len(set(t[1])) == 1:
+                            for t2, sel in self.gen(ctx, m - n1):
+                                if t2 == INT and sel[0] != "const":
+                                    yield (t[1][0], ("idxe", x, sel))
         # ---- method calls with arguments
         if "meth" in P and m >= 2:
             for n1 in range(1, m):
@@ -215,6 +233,22 @@ class Grammar:
                             yield (tb, ("app", body, arg, False))
                             if "appkw" in P:
                                 yield (tb, ("app", body, arg, True))
+        # ---- called two-parameter lambda: (lambda x, y: body)(a1, a2)
+        if "app2" in P and m >= 3:
+            for n1, n2, n3 in self.splits(m, 3):
+                for t2, a1 in self.gen(ctx, n2):
+                    if t2 == BOOL:
+                        continue
+                    for t3, a2 in self.gen(ctx, n3):
+                        if t3 == BOOL:
+                            continue
+                        for tb, body in self.gen(ctx + (t2, t3), n1):
+                            if self.pkg_depth_of(tb) > self.pkg_depth:
+                                continue
+                            yield (tb, ("app2", body, a1, a2, 0))
+                            if "appkw" in P:
+                                yield (tb, ("app2", body, a1, a2, 1))  # second by keyword
+                                yield (tb, ("app2", body, a1, a2, 2))  # both by keyword, reversed
         # ---- ternary
         if "ifexp" in P and m >= 3:
             for n1, n2, n3 in self.splits(m, 3):
@@ -294,6 +328,14 @@ def binder_info(term):
             counter[0] += 1
             walk(t[1], stack + [bid])
             walk(t[2], stack)
+        elif tag == "app2":
+            b1 = counter[0]
+            b2 = counter[0] + 1
+            counter[0] += 2
+            refs.append((b1, (b2,)))  # two parameters of one lambda need different names
+            walk(t[1], stack + [b1, b2])
+            walk(t[2], stack)
+            walk(t[3], stack)
         elif tag == "meth":
             walk(t[1], stack)
             for a in t[3]:
@@ -314,7 +356,7 @@ def binder_info(term):
 
 
 _TAGS = {"ds", "var", "attr", "meth", "const", "bin", "neg", "not", "cmp", "bool", "ifexp", "op",
-         "count", "first", "app", "tup", "lst", "dic", "idx", "key", "dattr", "idxv"}
+         "count", "first", "app", "tup", "lst", "dic", "idx", "key", "dattr", "idxv", "idxe", "app2"}
 
 
 def namings(term, pool):
@@ -380,6 +422,18 @@ def render(term, names):
             if t[3]:
                 return f"(lambda {nm}: {body})({nm}={arg})"
             return f"(lambda {nm}: {body})({arg})"
+        if tag == "app2":
+            n1 = names[counter[0]]
+            n2 = names[counter[0] + 1]
+            counter[0] += 2
+            body = r(t[1], stack + [n1, n2])
+            a1 = r(t[2], stack)
+            a2 = r(t[3], stack)
+            if t[4] == 0:
+                return f"(lambda {n1}, {n2}: {body})({a1}, {a2})"
+            if t[4] == 1:
+                return f"(lambda {n1}, {n2}: {body})({a1}, {n2}={a2})"
+            return f"(lambda {n1}, {n2}: {body})({n2}={a2}, {n1}={a1})"
         if tag == "count":
             s = r(t[2], stack)
             return {"f": f"Count({s})", "m": f"{s}.Count()", "len": f"len({s})"}[t[1]]
@@ -401,6 +455,8 @@ def render(term, names):
             return f"{r(t[1], stack)}.{t[2]}"
         if tag == "idxv":
             return f"{r(t[1], stack)}[{t[2]}]"
+        if tag == "idxe":
+            return f"{r(t[1], stack)}[{r(t[2], stack)}]"
         raise ValueError(tag)
 
     return r(term, [])
